@@ -34,7 +34,8 @@ def reader_validations(F, S):
     for q, what in need:
         inst = "%s::ReadIndexed#validated:%s" % (B, q.split("::")[-1])
         req = "every bitmap the reader returns has passed %s (%s)" % (q.split("::")[-1], what)
-        if called(ex, q):
+        from ..rules_valid import validated
+        if validated(F, rd, ex, q):
             out.append(ok("R-MUSTCALL", inst, rd.loc(rd.body), rd.qn, req, "on every path to the return"))
         else:
             out.append(bad("R-MUSTCALL", inst, rd.loc(rd.body), rd.qn, req, "a returning path bypasses it"))
@@ -42,7 +43,7 @@ def reader_validations(F, S):
     eng, ex = exit_events(F, S, v)
     for q, what in need[:2] + [(B + "::VerifyIndexedPaletteSizeDoesNotExceedBitCount", "palette <= 2^depth"), need[3]]:
         inst = "%s::Validate#includes:%s" % (B, q.split("::")[-1])
-        if called(ex, q):
+        if validated(F, v, ex, q):
             out.append(ok("R-MUSTCALL", inst, v.loc(v.body), v.qn, "BitmapFile::Validate runs %s" % q.split("::")[-1], "called on every path", nontrivial=False))
         else:
             out.append(bad("R-MUSTCALL", inst, v.loc(v.body), v.qn, "BitmapFile::Validate runs %s" % q.split("::")[-1], "not called"))
@@ -101,7 +102,7 @@ def pitch_law(F, S):
     from .c05 import alias_defs, resolve
     r = returns(cp)
     t = resolve(cp.term(r[0]["value"]), alias_defs(cp)) if len(r) == 1 else None
-    want = ("op", "&", ("op", "+", ("call", IH + "::CalcPixelByteWidth", None, (P(cp, 0), P(cp, 1))), ("const", 3)), ("const", -4))
+    want = ("op", "&", ("op", "+", F.call_value(IH + "::CalcPixelByteWidth", None, (P(cp, 0), P(cp, 1))), ("const", 3)), ("const", -4))
     inst = IH + "::CalculatePitch#law"
     if t == want:
         out.append(ok("R-ACCT", inst, cp.loc(r[0]["id"]), cp.qn, "pitch = (bytes per row + 3) & ~3", fmt_term(t)))
@@ -158,8 +159,8 @@ def write_pixels_shape(F, S):
         pix = P(fn, 1)
         a0 = resolve(fn.term(wr[0]["args"][0]), {})
         a1 = resolve(fn.term(wr[0]["args"][1]), defs)
-        pitch_t = ("call", IH + "::CalculatePitch", None, (P(fn, 4), P(fn, 2)))
-        bytes_t = ("call", IH + "::CalcPixelByteWidth", None, (P(fn, 4), P(fn, 2)))
+        pitch_t = F.call_value(IH + "::CalculatePitch", None, (P(fn, 4), P(fn, 2)))
+        bytes_t = F.call_value(IH + "::CalcPixelByteWidth", None, (P(fn, 4), P(fn, 2)))
         a0r = resolve(a0, defs)
         alt = a0r[0] == "op" and a0r[1] == "+" and a0r[2][0] == "call" and a0r[2][1].endswith("::data") and a0r[2][2] == pix and a0r[3] == ("op", "*", y, pitch_t)
         if a0r != ("un", "&", ("idx", pix, ("op", "*", y, pitch_t))) and not alt:
